@@ -121,6 +121,12 @@ Theorem C03_direct_route_wiring :
   GenFarmer.gen_run_cases_call = Farmer.model_run_combos_call /\ GenFarmer.gen_run_combos_call = Farmer.model_run_combos_call.
 Proof. exact (conj BridgeFarmer.bridge_run_cases BridgeFarmer.bridge_run_combos). Qed.
 
+(* the spellings of fn_args / cases / combos / var_names / var_dims are normalised by the pinned functions of
+   prepare.py (bare values wrapped, strings not split, dicts kept, duplicates refused) *)
+Theorem C03_spellings_pinned : gen_prepare_is_pinned = true.
+Proof. exact bridge_prepare_pinned. Qed.
+
+Print Assumptions C03_spellings_pinned.
 Print Assumptions C03_direct_route_wiring.
 Print Assumptions C03_df_rows.
 Print Assumptions C03_df_no_resources.
